@@ -155,6 +155,10 @@ class SymIO:
     def call(self, target, args, native=None):
         return self.s.call(target, args)
 
+    def call_named(self, suffix, args):
+        """call the MIR body whose full name ends with `suffix` (private free functions, closures)"""
+        return self.s.ex._exec_fn(self.s.state, self.s.ex.fn_named(suffix), list(args), 0)
+
     def spy(self, target):
         """record (args, return value, path condition) of every call of `target` made inside later io.call()s;
         used for compositional claims: 'f passes exactly these arguments to g', g itself being covered elsewhere"""
